@@ -134,6 +134,92 @@ theorem loop_prefix (fs : List Schema) (ic : Bool) (hw : wfFs fs = true) (hn : n
         rw [ih _ _ _ (hnp ▸ hrest) hrf, hoff, hsub]
         simp [List.foldl, applyItem, hk, isRep, endPos, hnp]
 
+/-- state of the accumulator after the scan loop processed `items` from position `pos`, offset `off`:
+    OffsetMarker fields skipped over on the way to an element record that element's offset -/
+def runItems (fs : List Schema) : Nat → Nat → List Value → List Item → List Value
+  | _, _, acc, [] => acc
+  | pos, off, acc, it :: r =>
+    runItems fs (nextPos it) (off + (tlv it.t it.body).length)
+      (applyItem (skipMarkers fs acc pos it.idx off) it) r
+
+/-- marker-aware version of `loop_prefix` (no assumption that the schema is marker-free) -/
+theorem loop_prefix_m (fs : List Schema) (ic : Bool) (hn : nodupB (typs fs) = true)
+    (R : Bytes) :
+    ∀ (items : List Item) (fuel off pos : Nat) (acc : List Value),
+      ItemsOK fs pos items → (encItems items ++ R).length < fuel →
+      parseFields fuel fs ic (encItems items ++ R) off pos acc =
+        parseFields (fuel - items.length) fs ic R (off + (encItems items).length) (endPos pos items)
+          (runItems fs pos off acc items)
+  | [], fuel, off, pos, acc, _, _ => by simp [encItems, endPos, runItems]
+  | it :: r, fuel, off, pos, acc, hok, hf => by
+    obtain ⟨hpos, ⟨hfld, hpr, htyp, ht, hb, hleaf, hpv⟩, hrest⟩ := hok
+    cases fuel with
+    | zero => simp at hf
+    | succ f =>
+      have hassoc : encItems (it :: r) ++ R = tlv it.t it.body ++ (encItems r ++ R) := by
+        simp [encItems, List.append_assoc]
+      obtain ⟨p1, p2, s1, s2, s3⟩ := head_elem it.t it.body (encItems r ++ R) ht hb
+      have hlen : (encItems (it :: r) ++ R).length =
+          tlNumSize it.t + tlNumSize it.body.length + it.body.length + (encItems r ++ R).length := by
+        rw [hassoc]; simp [tlv_length]
+      have hne : (encItems (it :: r) ++ R).isEmpty = false := by
+        cases h : encItems (it :: r) ++ R with
+        | nil => have := congrArg List.length h; rw [hlen] at this; have := tlNumSize_pos it.t; simp at *; omega
+        | cons _ _ => rfl
+      have hfind := findField_ok fs pos it.idx it.fld it.t hn hfld htyp hpos
+      have hfuel : it.body.length + 2 ≤ f := by
+        have := tlNumSize_pos it.t; have := tlNumSize_pos it.body.length; omega
+      have hrf : (encItems r ++ R).length < f := by
+        have := tlNumSize_pos it.t; omega
+      have ih := loop_prefix_m fs ic hn R r f
+      have hoff : ∀ o : Nat, o + (tlNumSize it.t + tlNumSize it.body.length) + it.body.length + (encItems r).length
+          = o + (encItems (it :: r)).length := by
+        intro o; simp [encItems, tlv_length]; omega
+      have hsub : f + 1 - (it :: r).length = f - r.length := by simp
+      conv => lhs; unfold parseFields
+      simp only [hne, Bool.false_eq_true, if_false]
+      rw [hassoc]
+      simp only [p1, p2, bind, Except.bind, s1, s2, s3, hfind, hfld]
+      cases hk : it.fld with
+      | map k v => simp [hk, plainOrRep] at hpr
+      | marker => simp [hk, plainOrRep] at hpr
+      | repeated e =>
+        simp only [hk, elemOf] at hleaf hpv
+        simp only [hleaf, hpv f _ hfuel]
+        have hnp : nextPos it = it.idx := by simp [nextPos, hk, isRep]
+        rw [ih _ _ _ (hnp ▸ hrest) hrf, hoff, hsub]
+        simp [runItems, applyItem, hk, isRep, endPos, hnp, encItems, tlv_length, Nat.add_assoc]
+      | uint t fl =>
+        simp only [hk, elemOf] at hleaf hpv
+        simp only [hleaf, hpv f _ hfuel]
+        have hnp : nextPos it = it.idx + 1 := by simp [nextPos, hk, isRep]
+        rw [ih _ _ _ (hnp ▸ hrest) hrf, hoff, hsub]
+        simp [runItems, applyItem, hk, isRep, endPos, hnp, encItems, tlv_length, Nat.add_assoc]
+      | bool t =>
+        simp only [hk, elemOf] at hleaf hpv
+        simp only [hleaf, hpv f _ hfuel]
+        have hnp : nextPos it = it.idx + 1 := by simp [nextPos, hk, isRep]
+        rw [ih _ _ _ (hnp ▸ hrest) hrf, hoff, hsub]
+        simp [runItems, applyItem, hk, isRep, endPos, hnp, encItems, tlv_length, Nat.add_assoc]
+      | bytes t s =>
+        simp only [hk, elemOf] at hleaf hpv
+        simp only [hleaf, hpv f _ hfuel]
+        have hnp : nextPos it = it.idx + 1 := by simp [nextPos, hk, isRep]
+        rw [ih _ _ _ (hnp ▸ hrest) hrf, hoff, hsub]
+        simp [runItems, applyItem, hk, isRep, endPos, hnp, encItems, tlv_length, Nat.add_assoc]
+      | name t =>
+        simp only [hk, elemOf] at hleaf hpv
+        simp only [hleaf, hpv f _ hfuel]
+        have hnp : nextPos it = it.idx + 1 := by simp [nextPos, hk, isRep]
+        rw [ih _ _ _ (hnp ▸ hrest) hrf, hoff, hsub]
+        simp [runItems, applyItem, hk, isRep, endPos, hnp, encItems, tlv_length, Nat.add_assoc]
+      | model t fs' ic' =>
+        simp only [hk, elemOf] at hleaf hpv
+        simp only [hleaf, hpv f _ hfuel]
+        have hnp : nextPos it = it.idx + 1 := by simp [nextPos, hk, isRep]
+        rw [ih _ _ _ (hnp ▸ hrest) hrf, hoff, hsub]
+        simp [runItems, applyItem, hk, isRep, endPos, hnp, encItems, tlv_length, Nat.add_assoc]
+
 theorem loop_items (fs : List Schema) (ic : Bool) (hw : wfFs fs = true) (hn : nodupB (typs fs) = true)
     (items : List Item) (fuel off pos : Nat) (acc : List Value)
     (hok : ItemsOK fs pos items) (hf : (encItems items).length < fuel) :
